@@ -358,6 +358,35 @@ class C12(IRCheck):
                             gs.append([case("a%d" % k, "purge", t, root, envs)])
                             gs.append([case("b%d" % k, "setwidth", t, root, envs, w=rng.choice([1, 2, 3, 4, 8, 16]))])
                             k += 1
+        # additions that only LOOK like a width adapter: x + C with a non-zero C whose low byte(s) are zero, in every
+        # operand order, width relation and context in which adapters are pruned
+        for wx in (1, 2, 4, 8):
+            for wc in (1, 2, 4, 8):
+                for cval in (0x100, 0x1000, 0x8000, 0x10000, 0xFF00, 0x100000000, 0):
+                    if cval >= 1 << (8 * wc) or (cval == 0 and wc != 1):
+                        continue
+                    for wadd in (1, 2, 4, 8):
+                        t = Table()
+                        x = t.reg("r1", wx) if (wx + wc + wadd) % 3 else t.bin(5, t.reg("r1", wx), t.reg("r2", wx), wx)
+                        c = t.constn(cval, wc)
+                        for first in (False, True):
+                            a = t.bin(1, c, x, wadd) if first else t.bin(1, x, c, wadd)
+                            for ctx in ("top", "mem", "bin", "less", "nest"):
+                                if ctx == "top":
+                                    root = a
+                                elif ctx == "mem":
+                                    root = t.mem("m1", a, 2)
+                                elif ctx == "bin":
+                                    root = t.bin(rng.choice(OPS), a, t.reg("r2", wadd), wadd)
+                                elif ctx == "less":
+                                    root = t.less(a, t.reg("r2", wadd), t.const([1]), a, wadd)
+                                else:
+                                    root = t.wg(t.bin(4, a, t.constn(3, 1), wadd), rng.choice([1, 2, 8]))
+                                envs = make_envs(rng, t.regs(), t.mems(), 5)
+                                gs.append([case("z%d" % k, "purge", t, root, envs)])
+                                if ctx in ("top", "bin"):
+                                    gs.append([case("y%d" % k, "setwidth", t, root, envs, w=rng.choice([1, 2, 4, 8, 16]))])
+                                k += 1
         return gs
 
 
